@@ -73,60 +73,61 @@ def check_a(ck, repo):
         if fi is None:
             ck.unknown("C06.a", None, f"{CLS}.{mname}", "dispatcher not found", file=ci.module.relpath, function=CLS)
             continue
-        # dispatcher structure: tests on self.norm against literals, else raise
-        lits = []
-        for n in own_nodes(fi.node):
-            if isinstance(n, ast.If) and isinstance(n.test, ast.Compare) and is_self_attr(n.test.left, "norm") and isinstance(n.test.ops[0], ast.Eq):
-                v = const_value(n.test.comparators[0])
-                if isinstance(v, str):
-                    lits.append((v, n))
-        names = sorted(v for v, _ in lits)
-        ck.verdict(names == ["L1", "L2"], "C06.a", fi, f"{mname}: dispatch on self.norm in {names}", "dispatches exactly on 'L1' and 'L2'", f"{mname} dispatches on {names}, the other dispatchers on ['L1', 'L2']")
-        cfg = build_cfg(fi.node)
-        falls = [n for n in cfg.nodes if n.kind == "implicit_return" and n.id in cfg.reachable()]
-        # an unknown norm must raise (no silent fall-through), except fit's trailing `return self`
-        has_raise = any(isinstance(n, ast.Raise) for n in own_nodes(fi.node))
-        ck.verdict(has_raise and not falls, "C06.a", fi, f"{mname}: unknown norm raises", "unknown norm is refused", f"{mname} can fall through for an unknown norm")
-        for v, ifn in lits:
-            if v != "L2":
-                continue
-            body = [s for s in ifn.body if not (isinstance(s, ast.Expr) and isinstance(s.value, ast.Constant))]
-            ok = len(body) == 1 and isinstance(body[0], (ast.Expr, ast.Return)) and isinstance(body[0].value, ast.Call)
-            if not ok:
-                ck.violated("C06.a", fi, ifn.test, f"{mname}: the L2 branch is not a single delegation to KMeans.{mname}: results can differ from scikit-learn's KMeans")
-                continue
-            call = body[0].value
-            par = explicit_parent_call(repo, fi, call, mname)
-            if par != parent and not (isinstance(par, str) and par.endswith("KMeans")):
-                ck.violated("C06.a", fi, body[0], f"{mname}: the L2 branch calls {src_of(call.func)}, not KMeans.{mname}")
-                continue
-            # forwarding
-            got = extsrc.find_method(parent, mname)
-            own_params = [p for p in fi.named_params[1:]]
-            if got is None:
-                ck.unknown("C06.a", fi, body[0], "cannot read KMeans source to compare signatures")
-                continue
-            pfn, _ = got
-            pparams = [a.arg for a in pfn.args.posonlyargs + pfn.args.args][1:] + [a.arg for a in pfn.args.kwonlyargs]
-            args = list(call.args)
-            if isinstance(call.func, ast.Attribute) and not isinstance(call.func.value, ast.Call) and args and isinstance(args[0], ast.Name) and args[0].id == "self":
-                args = args[1:]
-            passed: Dict[str, ast.AST] = {}
-            for i, a in enumerate(args):
-                if i < len(pparams):
-                    passed[pparams[i]] = a
-            for kw in call.keywords:
-                if kw.arg:
-                    passed[kw.arg] = kw.value
-            shared = [p for p in pparams if p in own_params]
-            missing = [p for p in shared if p not in passed]
-            wrong = [p for p in shared if p in passed and not (isinstance(passed[p], ast.Name) and passed[p].id == p)]
-            if missing or wrong:
-                ck.violated("C06.a", fi, body[0], f"{mname}: L2 delegation does not forward {missing + wrong} unchanged to KMeans.{mname}")
-            else:
-                ck.holds("C06.a", fi, body[0], f"pure delegation, forwards {shared}")
-            if isinstance(body[0], ast.Expr) and mname != "fit":
-                ck.violated("C06.a", fi, body[0], f"{mname}: result of KMeans.{mname} is dropped")
+        # dispatcher by path evaluation: norm bound to 'L2', 'L1' and to an unknown value
+        from .sem import paths as _paths, ptext as _ptext, RAISE as _RAISE
+
+        def run_with(norm):
+            return _paths(fi, {"self.norm": norm})
+
+        other = run_with("__another_norm__")
+        ck.verdict(bool(other) and all(p.ret == _RAISE for p in other), "C06.a", fi, f"{mname}: unknown norm raises", "unknown norm is refused", f"{mname} can fall through (or answer) for an unknown norm")
+        l1 = [p for p in run_with("L1") if p.ret != _RAISE]
+        ck.verdict(bool(l1) and all(not any(_ptext(c.func).startswith("KMeans.") or _ptext(c.func).startswith("super().") for c in p.calls) for p in l1), "C06.a", fi, f"{mname}: 'L1' handled by the package's own code", "dispatches exactly on 'L1' and 'L2'", f"{mname}: with norm='L1' the call is refused or handed to scikit-learn's Euclidean implementation")
+        l2 = run_with("L2")
+        good = [p for p in l2 if p.ret != _RAISE]
+        if len(l2) != 1 or len(good) != 1:
+            ck.violated("C06.a", fi, f"{mname}: norm='L2'", f"{mname}: with norm='L2' there are {len(l2)} paths ({len(good)} returning): the L2 branch is not a single delegation to KMeans.{mname}: results can differ from scikit-learn's KMeans")
+            continue
+        p = good[0]
+        dele = [c for c in p.calls if isinstance(c.func, ast.Attribute) and c.func.attr == mname]
+        others = [c for c in p.calls if c not in dele]
+        if len(dele) != 1 or others or p.stores:
+            ck.violated("C06.a", fi, f"{mname}: norm='L2' calls {[_ptext(c)[:40] for c in p.calls]}", f"{mname}: the L2 branch is not a single delegation to KMeans.{mname} (other calls {[_ptext(c.func) for c in others]}, stores {sorted(p.stores)}): results can differ from scikit-learn's KMeans")
+            continue
+        call = dele[0]
+        par = explicit_parent_call(repo, fi, call, mname)
+        if par != parent and not (isinstance(par, str) and par.endswith("KMeans")):
+            ck.violated("C06.a", fi, call, f"{mname}: the L2 branch calls {src_of(call.func)}, not KMeans.{mname}")
+            continue
+        got = extsrc.find_method(parent, mname)
+        own_params = [q for q in fi.named_params[1:]]
+        if got is None:
+            ck.unknown("C06.a", fi, call, "cannot read KMeans source to compare signatures")
+            continue
+        pfn, _ = got
+        pparams = [a.arg for a in pfn.args.posonlyargs + pfn.args.args][1:] + [a.arg for a in pfn.args.kwonlyargs]
+        args = list(call.args)
+        if isinstance(call.func, ast.Attribute) and not isinstance(call.func.value, ast.Call) and args and isinstance(args[0], ast.Name) and args[0].id == "self":
+            args = args[1:]
+        passed: Dict[str, ast.AST] = {}
+        for i_, a in enumerate(args):
+            if i_ < len(pparams):
+                passed[pparams[i_]] = a
+        for kw in call.keywords:
+            if kw.arg:
+                passed[kw.arg] = kw.value
+        shared = [q for q in pparams if q in own_params]
+        missing = [q for q in shared if q not in passed]
+        wrong = [q for q in shared if q in passed and not (isinstance(passed[q], ast.Name) and passed[q].id == q)]
+        if missing or wrong:
+            ck.violated("C06.a", fi, call, f"{mname}: L2 delegation does not forward {missing + wrong} unchanged to KMeans.{mname}")
+        else:
+            ck.holds("C06.a", fi, call, f"pure delegation, forwards {shared}")
+        rt = p.ret_text() if p.ret is not None else None
+        if mname == "fit":
+            ck.verdict(rt == "self", "C06.a", fi, f"fit returns {rt}", "fit returns the estimator", f"fit returns {rt} with norm='L2'")
+        else:
+            ck.verdict(rt == _ptext(call), "C06.a", fi, f"{mname} returns {str(rt)[:50]}", f"the result of KMeans.{mname} is returned unchanged", f"{mname}: result of KMeans.{mname} is dropped or altered (returns {str(rt)[:60]})")
 
 
 DIST_FUNCS = {
@@ -253,31 +254,54 @@ def check_c(ck, repo):
         ck.verdict(stored, "C06.c", cd, "centers[i] = median of cluster i", "median of cluster i stored as centre i", "the median is not stored into the centre of its own cluster")
     # E-step re-run on the returned centres
     ll = repo.func(MOD, "_kmeans_single_lloyd")
-    rets = [r for r in own_nodes(ll.node) if isinstance(r, ast.Return) and isinstance(r.value, ast.Tuple)]
-    if len(rets) != 1 or len(rets[0].value.elts) < 3:
-        ck.unknown("C06.c", ll, "return labels, inertia, centers, n_iter", "unexpected return shape")
+    rets = [r for r in own_nodes(ll.node) if isinstance(r, ast.Return) and isinstance(r.value, ast.Tuple) and len(r.value.elts) >= 3]
+    triples = {tuple(src_of(e) for e in r.value.elts[:3]) for r in rets}
+    if len(triples) != 1:
+        ck.unknown("C06.c", ll, "return labels, inertia, centers, n_iter", f"unexpected return shape: {sorted(triples)}")
         return
-    r = rets[0]
-    lab, ine, cen = [src_of(e) for e in r.value.elts[:3]]
+    lab, ine, cen = next(iter(triples))
     # the centres returned are the output of an M-step (a copy of it), never the centres it started from
     cds = [(st_, t) for st_, t in defs_texts(repo, ll, cen)]
     okc = bool(cds) and all(t in ("None", "(None, None, None)[2]") or (t.startswith("_centers_dense(") and (t.endswith(").copy()") or t.endswith(")"))) or (t.startswith("numpy.copy(_centers_dense(") ) for _, t in cds) and any(t.startswith("_centers_dense(") for _, t in cds)
     ck.verdict(okc, "C06.c", ll, f"{cen} = {[t[:40] for _, t in cds]}", "the centres returned are (a copy of) the M-step's output of the best iteration", f"{cen} is bound to {[t[:60] for _, t in cds]}: the centres returned are not the medians computed by the M-step (e.g. the centres the iteration started from)")
-    found = False
-    for s in own_nodes(ll.node):
-        if isinstance(s, ast.Assign) and isinstance(s.targets[0], ast.Tuple) and [src_of(e) for e in s.targets[0].elts] == [lab, ine] and isinstance(s.value, ast.Call) and src_of(s.value.func) == "_labels_inertia":
-            args = s.value.args
-            found = True
-            # signature: (norm, X, sample_weight, centers, distances=None)
-            carg = args[3] if len(args) > 3 else kwarg(s.value, "centers")
-            ck.verdict(carg is not None and src_of(carg) == cen, "C06.c", ll, s, f"final E-step assigns ({lab}, {ine}) from the returned centres {cen}", f"final E-step is run on {src_of(carg) if carg is not None else None}, but {cen} is returned: labels_ do not match cluster_centers_")
-            xarg = args[1] if len(args) > 1 else None
-            ck.verdict(xarg is not None and src_of(xarg) == "X", "C06.c", ll, f"_labels_inertia(.., {src_of(xarg) if xarg is not None else None}, ..)", "final E-step is run on the training data", "final E-step is not run on X")
-            # it must be executed whenever the centres moved since the labels were computed
-            conds = conds_at(repo, ll, s)
-            allowed = {cond_want(repo, "center_shift_total > 0", ll, s), cond_want(repo, "center_shift_total != 0", ll, s)}
-            ck.verdict(all(c in allowed for c in conds), "C06.c", ll, f"guard of the final E-step: {sorted(conds)}", "re-run whenever the last M-step moved the centres", "the final E-step is skipped on some path where the centres moved after the labels were computed")
-    if not found:
+    # every exit either knows that the last M-step did not move the centres, or returns the
+    # labels and inertia of a final E-step on the returned centres (path evaluation; the
+    # iteration loop is opaque, its variables carry a __L<line> suffix)
+    import re as _re
+    from .sem import paths as _paths, truth_of as _truth_of, ptext as _ptext, RAISE as _RAISE
+
+    shift_names = [n_ for n_ in {t.id for s_ in own_nodes(ll.node) if isinstance(s_, ast.Assign) for t in s_.targets if isinstance(t, ast.Name)} if any(("abs(" in tx and "_centers_dense(" in tx and " - " in tx and not tx.startswith("_centers_dense(")) for _, tx in defs_texts(repo, ll, n_))]
+    def _is_test(tx):
+        try:
+            return isinstance(ast.parse(tx, mode="eval").body, (ast.Compare, ast.BoolOp))
+        except SyntaxError:
+            return False
+
+    shift_names = [n_ for n_ in shift_names if not any(_is_test(tx) for _, tx in defs_texts(repo, ll, n_))]
+    if len(shift_names) != 1:
+        ck.unknown("C06.c", ll, "total shift of the centres", f"cannot identify the variable measuring how far the last M-step moved the centres: {shift_names}")
+        return
+    V = shift_names[0]
+    n_final = n_skip = 0
+    for p in [p for p in _paths(ll) if p.ret != _RAISE and isinstance(p.ret, ast.Tuple) and len(p.ret.elts) >= 3]:
+        lt, it_, ct = [_ptext(e) for e in p.ret.elts[:3]]
+        conds = tuple((_re.sub(r"__L\d+", "", t), pol) for t, pol in p.conds)
+        moved = _truth_of(conds, f"{V} > 0")
+        if moved is None:
+            nz = _truth_of(conds, f"{V} != 0")
+            moved = nz
+        call = p.ret.elts[0].value if isinstance(p.ret.elts[0], ast.Subscript) and isinstance(p.ret.elts[0].value, ast.Call) else None
+        is_final = call is not None and _ptext(call.func) == "_labels_inertia" and lt == _ptext(call) + "[0]" and it_ == _ptext(call) + "[1]"
+        if is_final:
+            n_final += 1
+            carg = call.args[3] if len(call.args) > 3 else kwarg(call, "centers")
+            ck.verdict(carg is not None and _ptext(carg) == ct, "C06.c", ll, f"final E-step on {_ptext(carg)[:40] if carg is not None else None}, returned centres {ct[:40]}", "the final E-step assigns labels and inertia from the returned centres", f"final E-step is run on {_ptext(carg) if carg is not None else None}, but {ct} is returned: labels_ do not match cluster_centers_")
+            xarg = call.args[1] if len(call.args) > 1 else None
+            ck.verdict(xarg is not None and _ptext(xarg) == "X", "C06.c", ll, f"_labels_inertia(.., {_ptext(xarg) if xarg is not None else None}, ..)", "final E-step is run on the training data", "final E-step is not run on X")
+        else:
+            n_skip += 1
+            ck.verdict(moved is False, "C06.c", ll, f"exit without final E-step when {[t for t, pol in conds if V in t]}", "the final E-step is skipped only where the last M-step did not move the centres", "the final E-step is skipped on some path where the centres moved after the labels were computed: labels_ and inertia_ refer to the previous centres")
+    if n_final == 0:
         ck.violated("C06.c", ll, f"({lab}, {ine}) = _labels_inertia(.., {cen}, ..)", "no final E-step on the returned centres: after the last M-step labels_ and inertia_ refer to the previous centres")
 
 
